@@ -87,12 +87,20 @@ def run(ctx):
     viol, diffs, dist, samples = [], [], {}, []
     items = []   # (kbpk, string, expect_accept, genuine, kind)
     seen = set()
+    from harness import gens as G
+    kbpk_list = []
     for v in "ABCD":
         for ks in t.KBPK_SIZES[v]:
-            from harness import gens as G
             kbpk = G.key(rng, ks) if ctx.rng.random() < 0.5 else rng.randbytes(ks)
             if v == "B" and ks == 24 and rng.random() < 0.7:
                 kbpk = kbpk[:16] + kbpk[:8]            # K1 K2 K1: Triple DES-equivalent to its 16-byte form, not TR-31-equivalent
+            kbpk_list.append((v, ks, kbpk, False))
+    # KBPKs at the msb corner of CMAC subkey generation: the authentic block must be accepted, every tamper rejected
+    corner = t.cmac_boundary_kbpks(rng)
+    for v, kbpk, label in (corner if ctx.thorough else rng.sample(corner, min(len(corner), 10))):
+        kbpk_list.append((v, len(kbpk), kbpk, True))
+    if True:
+        for v, ks, kbpk, is_corner in kbpk_list:
             gens = []
             for prof in ("none", "few", "few"):
                 c = t.gen_case(rng, version=v, profile=prof, keylen=rng.choice([8, 16, 24, 5]), mask=None)
